@@ -10,8 +10,8 @@ import (
 // R-single-visit: a tree walker passes each child to a recursive entry at most once per path.
 
 func init() {
-	register(&Rule{ID: "R-single-visit", Floor: 45, Run: ruleR3SingleVisit,
-		Doc: "for every function of the tree walkers (analyzer over the parser tree; interpreter and compiler over the analysed tree) and every pair of *descent* calls in it — calls of a function of the same package whose first parameter is a tree node (expression / statement / block / ConvertType …), directly or through a helper whose descents are re-rooted at the call site — that hand the SAME child (equal role term, or an element `list[c]` and the loop variable over the same list) to the SAME entry: no enumerated path passes both. A child analysed twice doubles the work at every nesting level (2^depth calls: analysis of a deeply nested program does not terminate in practice, C05), reports the child's diagnostics twice (C14 set semantics, C08) and — in the interpreter / compiler — evaluates or emits the child twice (C04, C01). Different entries on one child (signature pre-pass, then definition) are not a double visit."})
+	register(&Rule{ID: "R-single-visit", Floor: 90, Run: ruleR3SingleVisit,
+		Doc: "for every function of the tree walkers (analyzer over the parser tree; interpreter and compiler over the analysed tree) and every pair of *descent* calls in it — calls of a function of the same package whose first parameter is a tree node (expression / statement / block / ConvertType …), directly or through a helper whose descents are re-rooted at the call site — that hand the SAME child (equal role term, or an element `list[c]` and the loop variable over the same list) to the SAME entry: no enumerated path passes both. A child analysed twice doubles the work at every nesting level (2^depth calls: analysis of a deeply nested program does not terminate in practice, C05), reports the child's diagnostics twice (C14 set semantics, C08) and — in the interpreter / compiler — evaluates or emits the child twice (C04, C01). Different entries on one child (signature pre-pass, then definition) are not a double visit. The same holds for *recursive getters* of the node / type / value structs in every package: a method M that calls the method of the same name on a value it reaches from its receiver — through an interface its own receiver implements, or on a concrete child whose M is recursive in turn — or a function that calls itself (Type(), Constant(), String(), Display(), IsEqual(), Clone(), MarshalValue …). Nothing is cached in these structures, so a getter that evaluates the same recursive call term twice on one path (a nil test followed by the use: `if c.Type() != nil { t = c.Type() }`) costs 2^depth; calls in different clauses of one switch / type switch or in the two branches of one if are not on one path."})
 }
 
 // r3svBase splits a role term into the collection it selects from and the selector:
@@ -230,5 +230,6 @@ func ruleR3SingleVisit(c *Ctx) []Obligation {
 			out = append(out, ob)
 		}
 	}
+	out = append(out, r4sibGetterObligations(c)...)
 	return out
 }
